@@ -437,6 +437,8 @@ pub trait PuppetCtl: Send + Sync {
     fn set_pull_hook(&self, h: Arc<dyn Fn() + Send + Sync>);
     fn greet_all(&self);
     fn emit_all(&self);
+    /// every live subscription runs through the rest of its script, up to and including its end
+    fn finish_all(&self);
 }
 
 impl<T: Clone + Send + Sync + 'static> PuppetCtl for Arc<Puppet<T>> {
@@ -510,5 +512,10 @@ impl<T: Clone + Send + Sync + 'static> PuppetCtl for Arc<Puppet<T>> {
     }
     fn emit_all(&self) {
         Puppet::emit_all(self)
+    }
+    fn finish_all(&self) {
+        for _ in 0..(self.items.len() + 2) {
+            Puppet::emit_all(self)
+        }
     }
 }
